@@ -1,14 +1,14 @@
 (* C16 — Every frame reports a consistent, in-range player state.
-   This file holds what is proved so far: the voice-table invariant is established by the tables
-   virt_on/virt_reset create and bounds the voices in use; the buffer size is a whole number of frames,
-   at most XMP_MAX_FRAMESIZE/2 sample frames; two statements that are FALSE of the faithful model are kept
-   with their witnesses.  The per-frame predicate itself (Model/FrameInfo.v) and the voice invariant are
-   evaluated on every frame of the correspondence run.  Inductive preservation of the voice invariant by
-   every operation is work in progress (the three primitive moves and the pigeonhole are proved in
-   DESIGN Appendix A.5 for the bookkeeping-only model). *)
+   The voice-table invariant (the executable monitor invb of Model/Voices.v) is established by the tables
+   virt_on/virt_reset create, PRESERVED BY EVERY OPERATION of virtual.c for every state and argument that the
+   callers can supply (voices_inv_preserved, voices_inv_reachable: no access leaves the tables, 0 <= voices in
+   use <= voices, map and voice fields stay mutually inverse), and bounds the voices in use; the buffer size is
+   a whole number of frames, at most XMP_MAX_FRAMESIZE/2 sample frames; two statements that are FALSE of the
+   faithful model are kept with their witnesses.  The per-frame predicate itself (Model/FrameInfo.v) and the
+   voice invariant are also evaluated on every frame of the correspondence run. *)
 From Coq Require Import ZArith List Lia Bool.
 Import ListNotations.
-From LX Require Import Base.ListAux Generated.Consts Model.Downmix Proofs.DownmixProofs Model.FrameInfo Model.Voices Proofs.VoicesProofs.
+From LX Require Import Base.ListAux Generated.Consts Model.Downmix Proofs.DownmixProofs Model.FrameInfo Model.Voices Proofs.VoicesProofs Proofs.VoicesInv.
 Local Open Scope Z_scope.
 
 Theorem voices_inv_established : forall nvoc nchan ntrk mt s,
@@ -16,6 +16,63 @@ Theorem voices_inv_established : forall nvoc nchan ntrk mt s,
   (zlen (vcount s) = vchans s -> 0 <= ntracks s <= vchans s -> 1 <= vchans s -> invb (virt_reset s) = true).
 Proof. intros. split; [apply virt_init_inv | apply virt_reset_inv]. Qed.
 Print Assumptions voices_inv_established.
+
+(* One operation.  invb: the table invariant; modeb: virtual channels enabled (maxvoc <= vchans - ntracks) or no voice
+   carries a new-note action; op_okb: what the callers guarantee about the arguments (Model/Voices.v).
+   "vstep s o = Some _" says that no read or write of the operation left voice_array / virt_channel: every access of the
+   model is checked.  Nothing but the two tables and the counter changes shape: maxvoc, vchans, ntracks, mute stay. *)
+Theorem voices_inv_preserved : forall s o,
+  invb s = true -> modeb s = true -> op_okb s o = true ->
+  exists r s', vstep s o = Some (r, s') /\ invb s' = true /\ modeb s' = true /\
+               maxvoc s' = maxvoc s /\ vchans s' = vchans s /\ ntracks s' = ntracks s /\ mute s' = mute s.
+Proof.
+  intros s o Hi Hm Hok. apply modeb_iff in Hm.
+  destruct (vstep_inv s o (Inv_of_invb s Hi Hm) Hok) as (r & s' & E & I' & S').
+  exists r, s'. split; [exact E|]. split; [apply invb_of_Inv; exact I'|]. split; [apply modeb_iff; exact (I_q _ _ I')|].
+  apply shape_maxvoc. exact S'.
+Qed.
+Print Assumptions voices_inv_preserved.
+
+(* Every reachable state: any number of operations, each meeting op_okb in the state it is applied to, starting from the
+   tables libxmp_virt_on creates.  The conclusion is C16's clause "0 <= voices in use <= virtual channels" and the
+   anchor "voice allocation/free keeps the channel<->voice map and in-use count consistent". *)
+Theorem voices_inv_reachable : forall nvoc nchan ntrk mt s',
+  0 <= nvoc -> 0 <= ntrk <= nchan ->
+  reach (virt_init nvoc nchan ntrk mt) s' ->
+  invb s' = true /\ 0 <= used s' <= maxvoc s' /\ used s' = count_used (voices s') /\ maxvoc s' = nvoc /\ vchans s' = nchan.
+Proof.
+  intros nvoc nchan ntrk mt s' Hv Ht Hr.
+  assert (I0 : Inv (virt_init nvoc nchan ntrk mt)).
+  { apply Inv_of_invb; [apply virt_init_inv; assumption|]. right. intros i v Hg. unfold getv, virt_init in Hg. cbn [voices] in Hg.
+    unfold zget in Hg. destruct (i <? 0); [discriminate|]. apply nth_error_In in Hg. apply repeat_spec in Hg. subst v. reflexivity. }
+  destruct (reach_inv _ _ Hr I0) as [I' S']. apply shape_maxvoc in S' as (A & B & _).
+  pose proof (invb_of_Inv _ I') as Hb. destruct (invb_used_range _ Hb) as [R U].
+  split; [exact Hb|]. split; [exact R|]. split; [exact U|]. rewrite A, B. unfold maxvoc, vchans, virt_init, zlen. cbn [voices vmap].
+  rewrite !repeat_length. lia.
+Qed.
+Print Assumptions voices_inv_reachable.
+
+(* non-vacuity: a run that meets op_okb at every step, takes the new-note-action path (relabel to a background channel),
+   steals a background voice when all three are busy, and cuts by duplicate check; the theorem's premises hold along it *)
+Fixpoint run_ok (s : vst) (ops : list vop) : option vst :=
+  match ops with
+  | [] => Some s
+  | o :: t => if op_okb s o then match vstep s o with Some (_, s1) => run_ok s1 t | None => None end else None
+  end.
+Lemma run_ok_reach ops : forall s s', run_ok s ops = Some s' -> reach s s'.
+Proof.
+  induction ops as [|o t IH]; intros s s' H; cbn [run_ok] in H; [injection H as <-; constructor|].
+  destruct (op_okb s o) eqn:Eo; [|discriminate]. destruct (vstep s o) as [[r s1]|] eqn:Es; [|discriminate].
+  econstructor; [exact Eo|exact Es|apply IH; exact H].
+Qed.
+Example voices_run_nonvacuous :
+  match run_ok (virt_init 3 5 2 [])
+          [OSetPatch 0 0 0 60 1 0 0; OSetPatch 0 0 0 61 2 0 0; OSetPatch 0 0 1 62 1 0 0; OSetPatch 1 1 0 60 1 0 0;
+           OSetVol 3 0; OSetPatch 0 0 0 60 0 3 1; OResetChannel 1; OPastNote 0 0] with
+  | Some s' => (used s' <=? 3) && invb s' = true
+  | None => False
+  end.
+Proof. vm_compute. reflexivity. Qed.
 
 (* whenever the invariant holds: 0 <= voices in use <= number of voices, and the counter is the number of used voices *)
 Theorem voices_inv_bounds_used : forall s, invb s = true -> 0 <= used s <= maxvoc s /\ used s = count_used (voices s).
@@ -51,7 +108,7 @@ Proof.
 Qed.
 Print Assumptions buffer_bytes_bound_refuted.
 
-(* The hypothesis "virtual channels enabled, or no new-note action" in the (future) preservation theorem is
+(* The hypothesis "virtual channels enabled, or no new-note action" (modeb / op_okb) of the preservation theorem is
    necessary: without virtual channels a second note with NNA on a busy channel relabels the old voice onto the
    last *track* channel and orphans the voice that was there. *)
 Theorem voices_inv_needs_virtual_channels : exists s ops,
